@@ -272,6 +272,18 @@ Theorem C06_daily_finite_iff :
 Proof. intros V K. exact (@daily_finite_iff_l V K). Qed.
 Print Assumptions C06_daily_finite_iff.
 
+(* nothing is lost: a row whose temperature or supplied usage is missing (None = NaN) or present but not finite
+   (Some v with finite v = false: +inf / -inf) is a row of the result, with prediction NaN.  (kept = finite, dropped =
+   everything else; C06_daily_predict_perm_sorted says the two together are a permutation of the input.) *)
+Theorem C06_daily_dropped_rows_kept :
+  forall (V K : Type) (finite : V -> bool) (predict_sub : K -> V -> option V) (member : K -> @drow V -> bool)
+         (keys : list K) obs rows,
+  NoDup (map d_ts rows) -> exact_cover finite member keys obs rows ->
+  forall r, In r rows -> keep finite obs r = false ->
+  In (r, None) (daily_predict finite predict_sub member keys obs rows).
+Proof. intros V K. exact (@daily_dropped_rows_kept_l V K). Qed.
+Print Assumptions C06_daily_dropped_rows_kept.
+
 (* without the exact cover rows are duplicated (two sub-models select the row) or lose their prediction (none does) *)
 Definition ex_rows : list (@drow bool) :=
   [ {| d_ts := 30; d_temp := Some true; d_obs := Some true |}; {| d_ts := 10; d_temp := Some true; d_obs := None |};
@@ -292,3 +304,8 @@ Example C06_daily_cover_needed :
   = [10; 10; 30; 30; 20; 40]%Z
   \/ length (daily_predict (fun b : bool => b) (fun (_ : nat) t => Some t) (fun _ _ => true) [0; 1] false ex_rows) <> 4.
 Proof. right. vm_compute. discriminate. Qed.
+Example C06_nonvacuous_daily_inf :      (* row 40 of ex_rows has an infinite temperature, row 10 a missing usage *)
+  keep (fun b : bool => b) true {| d_ts := 40; d_temp := Some false; d_obs := Some true |} = false
+  /\ In ({| d_ts := 40; d_temp := Some false; d_obs := Some true |}, None)
+        (daily_predict (fun b : bool => b) (fun _ t => Some t) ex_member [0; 1] true ex_rows).
+Proof. split; [reflexivity|]. vm_compute. tauto. Qed.
